@@ -209,6 +209,28 @@ int simk_pthread_mutex_lock(pthread_mutex_t *m) {
   ev("mutex_lock", M->num);
   return 0;
 }
+static uint64_t abs_ns(const struct timespec *ts) { return (uint64_t)ts->tv_sec * 1000000000ULL + (uint64_t)ts->tv_nsec; }
+// timed variants (one simulated clock serves every clock id): not used by the library today
+int simk_pthread_mutex_timedlock(pthread_mutex_t *m, const struct timespec *abs) {
+  yield_point();
+  if (!cur()) return 0;
+  SMutex *M = get_mutex(m, "pthread_mutex_timedlock");
+  if (shim::fail_mutex_lock_kth > 0 && --shim::fail_mutex_lock_kth == 0) { fired(ST_SYSCALL); shim::mutex_lock_failures[cur()->id]++; ev("mutex_lock_fail", M->num); return EAGAIN; }
+  maybe_spurious();
+  Task *t = cur();
+  if (!abs || abs->tv_nsec < 0 || abs->tv_nsec > 999999999L) { if (M->owner == -1) { mutex_acquire(M); return 0; } return EINVAL; }
+  uint64_t deadline = abs_ns(abs);
+  while (M->owner != -1) {
+    if (now_ns() >= deadline) { ev("mutex_timedlock_timeout", M->num); return ETIMEDOUT; }
+    int id = t->id, num = M->num;
+    add_timer(deadline, [id, num]() { Task *x = task(id); if (x && x->state == T_BLOCKED && x->bkind == B_MUTEX && x->bobj == num) wake(x); });
+    block(B_MUTEX, M->num);
+  }
+  M->owner = t->id;
+  t->vc.join(M->vc);
+  ev("mutex_lock", M->num);
+  return 0;
+}
 int simk_pthread_mutex_trylock(pthread_mutex_t *m) {
   yield_point();
   if (!cur()) return 0;
@@ -280,6 +302,39 @@ int simk_pthread_cond_wait(pthread_cond_t *c, pthread_mutex_t *m) {
   mutex_acquire(M);
   ev("cond_wake", C->num, M->num);
   return 0;
+}
+int simk_pthread_cond_timedwait(pthread_cond_t *c, pthread_mutex_t *m, const struct timespec *abs) {
+  yield_point();
+  Task *t = cur();
+  if (!t) return 0;
+  SCond *C = get_cond(c, "pthread_cond_timedwait");
+  auto mit = mutexes.find((uintptr_t)m);
+  if (mit == mutexes.end() || mit->second->destroyed)
+    violate("cond_wait_bad_mutex", apiname(), "pthread_cond_timedwait given an address that is not a live mutex");
+  SMutex *M = mit->second;
+  if (M->owner != t->id)
+    violate("cond_wait_bad_mutex", apiname(), "pthread_cond_timedwait with mutex #%d not held by the caller t%d (owner %d)", M->num, t->id, M->owner);
+  if (!abs || abs->tv_nsec < 0 || abs->tv_nsec > 999999999L) return EINVAL;
+  uint64_t deadline = abs_ns(abs);
+  maybe_spurious();
+  mutex_release(M);
+  ev("cond_wait", C->num, M->num);
+  int rc = 0;
+  if (now_ns() >= deadline) rc = ETIMEDOUT;
+  else {
+    C->waiters.push_back(t->id);
+    int id = t->id; SCond *cc = C;
+    add_timer(deadline, [id, cc]() {
+      Task *x = task(id);
+      for (size_t i = 0; i < cc->waiters.size(); i++) if (cc->waiters[i] == id) { cc->waiters.erase(cc->waiters.begin() + i); if (x && x->state == T_BLOCKED && x->bkind == B_COND) { x->timed_out = true; wake(x); } break; }
+    });
+    t->timed_out = false;
+    block(B_COND, C->num);
+    if (t->timed_out) { rc = ETIMEDOUT; t->timed_out = false; }
+  }
+  mutex_acquire(M);
+  ev("cond_wake", C->num, M->num);
+  return rc;
 }
 int simk_pthread_cond_signal(pthread_cond_t *c) {
   yield_point();
